@@ -5,8 +5,8 @@ package main
 
 import (
 	"fmt"
-	"strings"
 	"go/types"
+	"strings"
 
 	"golang.org/x/tools/go/ssa"
 )
@@ -314,6 +314,17 @@ func init() {
 	}
 	def("sort.SliceStable", modelEffect{allocates: true, nonDoc: true}, sliceSortModel)
 	def("sort.Slice", modelEffect{allocates: true, nonDoc: true}, sliceSortModel)
+
+	// ---- encoding/csv: a record read without an error has at least one field (the reader skips empty lines)
+	def("(*encoding/csv.Reader).Read", modelEffect{allocates: true}, func(g *gen, st *state, c *ssa.CallCommon, a []string, in ssa.Instruction) []string {
+		rec := g.newConst("csvrec", g.sorts.sortOf(c.Signature().Results().At(0).Type()))
+		e := g.newConst("err", "Iface")
+		g.assumeAllocated(st, rec, c.Signature().Results().At(0).Type())
+		g.assume(sImp(sEq(app("i.typ", e), "0"), app(">", app("s.len", rec), "0")))
+		g.assume(app(">=", app("s.len", rec), "0"))
+		g.P.usedAssumption("encoding/csv: Reader.Read returns a record with at least one field when it returns no error")
+		return []string{rec, e}
+	})
 
 	// ---- time -----------------------------------------------------------------------------------------
 	def("(time.Time).Equal", none, func(g *gen, st *state, c *ssa.CallCommon, a []string, in ssa.Instruction) []string {
